@@ -10,7 +10,7 @@ META = {
     "level": "proof",
     "technique": "Coq theorems over a hand-written recogniser of the env-template pattern (accepts exactly the documented grammar, rejects every string that is not template-shaped), the three-way resolution, and its composition with the dimension resolution of C03 + two translator ties (the pattern literal read with regexp/syntax = the regular expression whose language is proved to be the matcher's; MatchAndResolve and parseTemplatedElements regenerated as Gallina = the three-way resolution and the template pass subst) + in-kernel correspondence with the real gconfig on generated templates/near-misses placed in C03 documents under set / set-empty / unset environments",
     "design_ref": "DESIGN.md §4 C16",
-    "level_text": "Proof: TmplProofs.v characterises the language of the hand-written matcher match_env (mirror of the anchored pattern in yaml_templates.go): it accepts a string iff the string is `${{` ws `env:` ws NAME ws [`|`] ws [DEFAULT] ws `}}` and returns the maximal NAME and the trimmed DEFAULT; every string of the documented grammar (any name in [A-Za-z0-9_]+, any default, any inner spacing) yields exactly (name, default); strings with leading/trailing text, single braces or without `env:` are rejected and left untouched; resolution is value-if-set (even empty), else default with surrounding double quotes stripped, else an error; and loading = template pass over the *resolved* document of C03, so a template in an unselected branch can never fail loading (Props/C16.v, closed under the global context); the language of the matcher is proved equal to the language of the source's regular expression under the textbook matching relation. Tied to the source (T) by xlate_tmplre (pattern literal -> regular-expression term, Tie_C16: gen_pattern = hand_pattern) and xlate_gconf -set templates (MatchAndResolve and parseTemplatedElements -> Gallina, Tie_C16_resolve: regenerated = resolve_str; subst satisfies the recursion equation of parseTemplatedElements), and (C) by loading generated documents through the public API and judging each observation inside Coq.",
+    "level_text": "Proof: TmplProofs.v characterises the language of the hand-written matcher match_env (mirror of the anchored pattern in yaml_templates.go): it accepts a string iff the string is `${{` ws `env:` ws NAME ws [`|`] ws [DEFAULT] ws `}}` and returns the maximal NAME and the trimmed DEFAULT; every string of the documented grammar (any name in [A-Za-z0-9_]+, any default, any inner spacing) yields exactly (name, default); strings with leading/trailing text, single braces or without `env:` are rejected and left untouched; resolution is value-if-set (even empty), else default with surrounding double quotes stripped, else an error; and loading = template pass over the *resolved* document of C03, so a template in an unselected branch can never fail loading (Props/C16.v, closed under the global context); the language of the matcher is proved equal to the language of the source's regular expression under the textbook matching relation. Tied to the source (T) by xlate_tmplre (pattern literal -> regular-expression term, Tie_C16: gen_pattern = hand_pattern) and xlate_gconf -set templates (MatchAndResolve, parseTemplatedElements, Builder.FromBytes and their helpers -> Gallina; Tie_C16_resolve proves for all arguments, whatever helpers and loop forms the source uses: regenerated MatchAndResolve = resolve_str; the regenerated parseTemplatedElements is right given a recursive call right on the children, so subst satisfies its recursion equation, which has a unique solution; regenerated FromBytes = load_full: dimensions resolved first, templates substituted in the resolved document only), the model-level theorems C16_model_unselected_irrelevant / C16_model_error_iff (unselected branches cannot influence loading, stated on the model load_full and an independent resolution relation), and (C) by loading generated documents through the public API and judging each observation inside Coq.",
     "level_note": "Trusted: Coq 8.16.1 kernel + vm_compute; Go's regexp engine implements the pattern as the hand-written recogniser does (validated by the correspondence run, not proved); fidelity of TmplModel.v/GConfModel.v (correspondence); yaml.v3 round trip; os.LookupEnv recorded per case. No axioms.",
     "allowed_axioms": [],
 }
@@ -114,6 +114,7 @@ def run(ctx):
     if res is None:
         return
     terms, jsons, bad, nt, info, widened = res
+    gl.count_domain(ctx, HEADER, "c03_case", terms, jsons, 60 if ctx.tier == "quick" else 200)
     strs = [s for j in jsons for s in strings_of(j["doc"])]
     tmpl = [s for s in strs if s.startswith("${")]
     ctx.cov.update({
@@ -143,8 +144,9 @@ def run(ctx):
 def translator_tie(ctx, d):
     """(T) two ties, both regenerated from gconfig/yaml_templates.go of the current tree:
     Tie_C16 — the pattern literal as a regular-expression term (gen_pattern = hand_pattern,
-    gen_anchored = true and their consequences); Tie_C16_resolve — MatchAndResolve translated to
-    Gallina equals the three-way resolution resolve_str.  A broken tie is reported after the
+    gen_anchored = true and their consequences); Tie_C16_resolve — MatchAndResolve, parseTemplatedElements and
+    Builder.FromBytes (with all helpers) translated to Gallina compute, for all arguments, resolve_str / subst / load_full
+    (semantic lemmas: see coq/ties/Tie_C03.v).  A broken tie is reported after the
     correspondence run unless that run found a concrete failing input."""
     repo = ctx.copy_repo()
     ok1, d1 = ctx.translator_tie("xlate_tmplre", ["-src", os.path.join(repo, "gconfig", "yaml_templates.go")],
